@@ -35,7 +35,7 @@ TRUSTED = [
     "w_unpack2; what it ignores for the value: docstrings, initialize(), get_logger, logging calls with side-effect-free arguments (and loops of nothing else), "
     "matplotlib set-up statements, style keywords of plot_footprint_field / ax.plot / savefig, plt.close",
     "of matplotlib only: savefig saves the figure that plot_footprint_field / ax.plot were handed the axes of (modelled, not verified); cli.main / argparse are "
-    "not translated (main is only required to call cmd_run(args) exactly once)",
+    "not translated (main is only required to call cmd_run(args) exactly once); (A) repeats every 5th observed invocation through cli.main() with the command line",
 ]
 ASSUMPTIONS = [
     "values of the forcing fields are opaque to MetConfig (it only selects and forwards them); tokens are distinct integers",
